@@ -104,6 +104,9 @@ def cases_start(tier):
             if fault in ("evaluator-raises", "driver-aborts") and n_eval == 0:
                 continue
             yield "evaluations=%d/%s" % (n_eval, fault), {"n_eval": n_eval, "fault": fault}
+            if fault in ("evaluator-raises", "driver-aborts", "child-reports-error") and n_eval == 1:
+                # the same optimizer object is started again after a run that ended that way: the second, healthy, run completes
+                yield "evaluations=%d/%s/then-started-again" % (n_eval, fault), {"n_eval": n_eval, "fault": fault, "restart": True}
 
 
 def scn_start(T, case):
@@ -123,11 +126,12 @@ def scn_start(T, case):
     raise_at = T.choose(n_eval) if fault in ("evaluator-raises", "driver-aborts") else None
     proc = Process(log, alive, status)
     comm = Comm(log, script, retry, fail_write_at=T.choose(len(script)) if fault == "sending-fails" else None)
+    env = {"proc": proc, "comm": comm, "raising": True}
     calls = []
 
     def callback(variables, *, return_functions, return_gradients):
         calls.append((variables.copy(), return_functions, return_gradients))
-        if raise_at is not None and len(calls) - 1 == raise_at:
+        if env["raising"] and raise_at is not None and len(calls) - 1 == raise_at:
             if fault == "driver-aborts":
                 # the optimizer driver ends a run this way (max_functions reached, user abort, too few realizations)
                 from ropt.enums import OptimizerExitCode
@@ -146,8 +150,9 @@ def scn_start(T, case):
 
     os_stub = OsStub(kill=lambda pid, sig: log.append(("kill", pid, sig)), getpid=lambda: 1)
     stubs = {
-        (MX, "subprocess"): types.SimpleNamespace(Popen=lambda args: (log.append(("spawn", list(args))), proc)[1], TimeoutExpired=subprocess.TimeoutExpired),
-        (MX, "_JSONPipeCommunicator"): lambda a, b: comm,
+        (MX, "subprocess"): types.SimpleNamespace(Popen=lambda args: (log.append(("spawn", list(args))), env["proc"])[1], TimeoutExpired=subprocess.TimeoutExpired),
+        (MX, "_JSONPipeCommunicator"): lambda a, b: env["comm"],
+        (MX, "PluginManager"): lambda: types.SimpleNamespace(get_plugin=lambda kind, method: types.SimpleNamespace(create=lambda config, cb: types.SimpleNamespace(allow_nan=False, is_parallel=False))),
         (MX, "os"): os_stub,
         (MX, "time"): types.SimpleNamespace(sleep=lambda s: None),
         (MX, "TemporaryDirectory"): TmpDir,
@@ -156,6 +161,7 @@ def scn_start(T, case):
     if T.symbolic:
         sh = T.shadow([MX], stubs)
         cls = T.under_contract(sh, MX, "ExternalOptimizer")
+        T.under_contract(sh, MX, "ExternalOptimizer.__init__")
         T.under_contract(sh, MX, "ExternalOptimizer.start")
         T.under_contract(sh, MX, "ExternalOptimizer._handle_request")
         restore = None
@@ -168,10 +174,8 @@ def scn_start(T, case):
         cls = real.ExternalOptimizer
     dumped = {"dumped": "configuration"}
     try:
-        opt = object.__new__(cls)
-        opt._config = types.SimpleNamespace(model_dump=lambda round_trip=False: dumped)
-        opt._optimizer_callback = callback
-        opt._process_pid = None
+        # the object is made by its real constructor (whatever state it sets up is the state start() runs in, every time it runs)
+        opt = cls(types.SimpleNamespace(model_dump=lambda round_trip=False: dumped, optimizer=types.SimpleNamespace(method="external/slsqp")), callback)
         x0 = np.array([0.125, 0.75])
         from ropt.exceptions import OptimizationAborted as _Aborted
 
@@ -186,6 +190,21 @@ def scn_start(T, case):
             outcome = "user-error"
         except RuntimeError as exc:
             outcome = "runtime-error:" + str(exc)
+        if case.get("restart"):
+            # a second run on the same object in a healthy environment: the child asks for the configuration, the initial values
+            # and one evaluation, then exits with status 0; nothing of the first run (a stored exception, a pid) plays a role
+            log2 = []
+            script2 = ["config", "initial_values", {"evaluation": {"variables": [7.5, 1.0], "return_functions": True, "return_gradients": False}}]
+            env.update(proc=Process(log2, len(script2) + 2, 0), comm=Comm(log2, script2, 0), raising=False)
+            n_before = len(calls)
+            try:
+                opt.start(np.array([0.5, 0.25]))
+                outcome2 = "returned"
+            except BaseException as exc:  # noqa: BLE001
+                outcome2 = "%s: %s" % (type(exc).__name__, exc)
+            T.prove("C20.start.a_second_run_on_the_same_object_is_not_affected_by_how_the_first_one_ended", outcome2 == "returned" and len(calls) == n_before + 1
+                    and bool(np.array_equal(calls[-1][0], np.array([7.5, 1.0]))), outcome2)
+            del calls[n_before:]
     finally:
         if restore:
             for k, v in restore[1].items():
